@@ -188,6 +188,7 @@ func runC09(c *Ctx) {
 	checkResultUsedAfterError(c, fns)
 	checkNilErrorDereferenced(c, fns)
 	checkHandlerMaps(c, via)
+	checkLogArgumentPositive(c, fns)
 
 	// ---- validators answer Reject/Ignore on error edges
 	acc, _ := p.constValue("pkg/p2p", "ValidationAccept")
